@@ -97,9 +97,15 @@ class SLUGSConnector(api.AuthAPI):
             raise exceptions.PermissionDenied(
                 "Unrecognized user ID: {}".format(user_id)
             )
+        elif response.status_code != 200:
+            raise exceptions.PermissionDenied(
+                "The SLUGS service could not confirm user ID: {}".format(
+                    user_id
+                )
+            )
 
         response = requests.get(self.groups_url.format(user_id), timeout=10)
-        if response.status_code == 404:
+        if response.status_code != 200:
             raise exceptions.PermissionDenied(
                 "Group information could not be retrieved for user ID: "
                 "{}".format(user_id)
